@@ -252,7 +252,8 @@ func (msg *MessageAuth) FromBytes(src []byte) error {
 		return ErrNotEnoughSourceBytes
 	}
 
-	p, q := 0, l/(MessageChunkBytesMax+2)+1
+	// number of chunks: every chunk but the last one is full (2 header bytes + MessageChunkBytesMax)
+	p, q := 0, (l+MessageChunkBytesMax+1)/(MessageChunkBytesMax+2)
 	chunks := make([]*MessageChunk, 0, q)
 	var chunk *MessageChunk
 	for i := 0; i < q; i++ {
@@ -295,7 +296,7 @@ func (msg *MessageAuth) FromChunks(chunks []*MessageChunk) error {
 
 	var foundDelimiter bool
 	for i, b := range src {
-		if b == MessageChunkBytesDelimiter {
+		if b == MessageChunkBytesDelimiter && i < len(src)-1 {
 			msg.Username = string(src[:i])
 			msg.PublicKeyBytes = src[i+1 : len(src)-1]
 			msg.PublicKeyParity = src[len(src)-1]
